@@ -58,7 +58,8 @@ def main():
         detected = {}
         env = dict(ENV, VERIF_REPO=wt)
         for p in props:
-            rc, out = sh(f"/verif/vcheck {p} --tier quick", cwd="/verif", env=env, timeout=3000)
+            vdir = os.environ.get("MUTEVAL_VERIF", "/verif")  # a frozen copy of /verif can be used while /verif is being edited
+            rc, out = sh(f"{vdir}/vcheck {p} --tier quick", cwd=vdir, env=dict(env, VERIF_DIR=vdir), timeout=3000)
             lines = [l for l in out.splitlines() if l.startswith(("violation detail", "BROKEN", "INCONCLUSIVE", "BUILD-FAILED"))]
             detected[p] = {"exit": rc, "lines": [l[:300] for l in lines[:6]]}
         res["checks"] = detected
